@@ -908,7 +908,12 @@ func stepXattrWrite(d Doc, op *Op, r *Res, env Env, body string, exp uint32, cas
 			if sz > env.MaxDoc-slack {
 				return unchanged(d, "xattr"), true
 			}
-			return fail(t07, "%s reported too-big for %d bytes (limit %d)", op.Kind, sz, env.MaxDoc), true
+			tags := t07
+			if !d.HasBody && n.HasBody {
+				// an insert-style write on a key without a body was refused although the new document fits
+				tags = append(append([]string{}, t07...), tagIns...)
+			}
+			return fail(tags, "%s reported too-big for %d bytes (limit %d)", op.Kind, sz, env.MaxDoc), true
 		}
 		// (only a call that grows the document is expected to be refused: body-only writes check the
 		// body alone, so a document may already be above the combined limit before this call)
